@@ -21,6 +21,8 @@ ID = "C12"
 
 BASE = {"f1.txt": b"one\n", "m2.txt": b"two\n", "d": {"inner.txt": b"i\n"}, "h.html": worlds.HTML}
 KINDS = ["dangling", "fifo", "socket", "vanished", "eacces", "dotdot-name", "dotdir", "loop"]
+# dot-named variants: under the UMN handler a dot-file is read as a link file
+DOT_KINDS = ["dot-dangling", "dot-fifo", "dot-socket", "dot-vanished", "dot-eacces", "dot-loop"]
 POSITIONS = {"first": "0", "middle": "g", "last": "z"}
 PROTOS = ["gopher", "gopherp_dir", "http", "wap", "gemini", "spartan", "sgopher"]
 DIRLIST = ("[url.HTMLURLHandler, gophermap.BuckGophermapHandler, mbox.MaildirFolderHandler, mbox.MaildirMessageHandler, "
@@ -29,6 +31,8 @@ HANDLERS = {"umn": "default", "dir": DIRLIST}
 
 
 def fault_name(kind, pos):
+    if kind.startswith("dot-"):
+        return "." + POSITIONS[pos] + kind[4:]
     stem = POSITIONS[pos] + "-" + kind
     if kind == "dotdot-name":
         return POSITIONS[pos] + "a..b.txt"
@@ -39,6 +43,7 @@ def fault_name(kind, pos):
 
 _ghosts = set()   # selectors listdir should invent
 _eacces = set()   # selectors whose stat fails with EACCES
+_eopen = set()    # selectors whose open fails with EACCES
 _patched = False
 
 
@@ -65,6 +70,14 @@ def _patch():
             raise PermissionError(errno.EACCES, "Permission denied (injected)")
         return o_stat(self, selector)
 
+    o_open = VFS_Real.open
+
+    def open_(self, selector, *a, **k):
+        if selector in _eopen and type(self) is VFS_Real:
+            raise PermissionError(errno.EACCES, "Permission denied (injected)")
+        return o_open(self, selector, *a, **k)
+
+    VFS_Real.open = open_
     VFS_Real.listdir = listdir
     VFS_Real.stat = stat
     _patched = True
@@ -76,6 +89,12 @@ def _plant(root, d, kind, pos):
     name = fault_name(kind, pos)
     p = os.path.join(root, d, name)
     sel = "/" + d + "/" + name
+    if kind.startswith("dot-"):
+        kind = kind[4:]
+        if kind == "eacces":
+            rig.write_file(p, b"Name=unreadable link file\nType=1\nPath=/x\nHost=h\nPort=70\n")
+            _eopen.add(sel)
+            return name
     if kind == "dangling":
         os.symlink("no-such-target", p)
     elif kind == "loop":
@@ -127,6 +146,7 @@ def _run_case(hname, faults, zipmode=False):
     _patch()
     _ghosts.clear()
     _eacces.clear()
+    _eopen.clear()
     w = rig.World({"t": {k: (dict(v) if isinstance(v, dict) else v) for k, v in BASE.items()}}, handlers=HANDLERS[hname], cachetime=0, tag="c12")
     bad = []
     try:
@@ -170,6 +190,7 @@ def _run_case(hname, faults, zipmode=False):
     finally:
         _ghosts.clear()
         _eacces.clear()
+        _eopen.clear()
         w.destroy()
     return bad
 
@@ -248,7 +269,7 @@ def replay(case):
 
 
 def run(ck):
-    singles = [(k, p) for k in KINDS for p in POSITIONS]
+    singles = [(k, p) for k in KINDS for p in POSITIONS] + [(k, "middle") for k in DOT_KINDS]
     cases = []
     for h in HANDLERS:
         for s in singles:
